@@ -13,7 +13,7 @@ LEVEL = "exploration"
 RULE = (
     "one case = one optimizer configuration (decay modes, filtering with beta3, grafting types, momentum/Nesterov/dampening, bias correction, Shampoo eigen / SOAP "
     "eigh+QR, blocked parameters) x backend in {eager, aot_eager} x shape mode in {static, dynamic, auto}; 8-12 steps crossing the warm-up switch with >=2 refreshes "
-    "and <=5 gradient-presence changes (forcing recompilation); every compared step is one evaluation. Non-trivial: dynamo compiled >=1 graph and >=1 presence change. "
+    "and <=5 gradient-presence changes (forcing recompilation), 0-3 lr / weight-decay / momentum edits in param_groups between steps; every compared step is one evaluation. Non-trivial: dynamo compiled >=1 graph and >=1 presence change. "
     "Distinct by (backend, shape mode, precond, grafting, decay mode, momentum flags, beta1>0, beta3!=beta1, dtype)."
 )
 ASSUMPTIONS = [
@@ -91,6 +91,17 @@ def run_case(case):
     gg = tgen(*case["seed"], "grads")
     counters = {"evals": 0, "steps_bitwise": 0, "steps_within_tolerance": 0, "tensors_compared": 0, "presence_changes": changes}
     desc = {"backend": case["backend"], "dynamic": case["dynamic"], "cfg": cfg, "shapes": shapes, "presence": pres}
+    # scheduler edits of param_groups between steps (python scalars the compiled graph was specialised on, and the lr tensor), applied
+    # to both twins; own stream so the other draws stay as they were
+    rnd_e = rng_for(*case["seed"], "c18edits")
+    edits = []
+    for _ in range(rnd_e.choice([0, 1, 2, 3])):
+        key = rnd_e.choice(["lr", "lr", "weight_decay", "momentum"])
+        if (key == "momentum" and cfg["momentum"] == 0.0) or (key == "weight_decay" and cfg["weight_decay"] == 0.0):
+            continue
+        val = {"lr": rnd_e.choice([0.5, 2.0, 0.0]) * cfg["lr"], "weight_decay": rnd_e.choice([0.0, 0.5, 2.0]) * cfg["weight_decay"], "momentum": rnd_e.choice([0.4, 0.7])}[key]
+        edits.append([rnd_e.randrange(1, T), key, val])
+    desc["edits"] = edits
     reuse_steps = set(rnd.sample(range(1, T), rnd.choice([0, 1, 2])))  # step() called again on the gradient tensors left by the previous step
     for t in range(T):
         for j in range(len(shapes)):
@@ -100,6 +111,11 @@ def run_case(case):
             g = G.grad_for(torch, gg, shapes[j], dt, "dense", gs * (1 + j)) if pres[t][j] else None
             A[j].grad = None if g is None else g.clone()
             B[j].grad = None if g is None else g.clone()
+        for e in edits:
+            if e[0] == t:
+                optA.param_groups[0][e[1]] = e[2]
+                optB.param_groups[0][e[1]] = e[2]
+                counters["schedule_edits_applied"] = counters.get("schedule_edits_applied", 0) + 1
         before = [p.detach().clone() for p in A]
         optA.step()
         try:
